@@ -93,6 +93,15 @@ theorem replay_accepted_nodup (ks : List Nat) : (acceptedIds init [] ks).Nodup :
   rw [ha']
   exact (specInv_run Spec.init ks specInv_init).nodup
 
+/-- ERROR KINDS. `AlreadyExists` ("definitely seen") is returned exactly for ids that were answered
+    `Ok` before and are still inside the window; every other refusal (reserved id, too old) is
+    `Unknown`. -/
+theorem replay_error_kinds (ks : List Nat) (k : Nat) :
+    (postAuthentication (runState init ks) k).2 = .error .alreadyExists ↔
+      k ≠ 4611686018427387903 ∧ k ∈ acceptedIds init [] ks ∧
+        ∃ m, highest (acceptedIds init [] ks) = some m ∧ m - k < 896 :=
+  post_already_iff _ _ k (replay_window_refines_spec_run ks)
+
 /-- the reserved maximum id is never accepted, in any state whatsoever -/
 theorem replay_max_id_never_accepted (s : State) :
     postAuthentication s 4611686018427387903 = (s, .error .unknown) := post_max s
